@@ -256,14 +256,26 @@ def search(ctx):
     from cirbo.core.logic import DontCare
     for name, db in dbs.items():
         for k in range(ctx.scale(400, 6000)):
-            n = rng.choice([2, 2, 3])
-            m = rng.choice([1, 1, 2])
+            n = rng.choice([2, 2, 2, 3])
+            m = rng.choice([1, 2, 2, 3, 3]) if n == 2 else rng.choice([1, 1, 2, 3])
             rows = [[rng.choice('01') for _ in range(1 << n)] for _ in range(m)]
-            npos = rng.randint(1, 4)
+            # related outputs: copies and complements of the first one, so that several completions share a normal form
+            for i in range(1, m):
+                k = rng.random()
+                if k < 0.25:
+                    rows[i] = list(rows[0])
+                elif k < 0.5:
+                    rows[i] = ['1' if ch == '0' else '0' for ch in rows[0]]
+            npos = rng.randint(1, 4 if n == 2 else 3)
             pos = []
+            if m >= 2 and n == 2 and rng.random() < 0.2:
+                i = rng.randrange(m)
+                pos = [(i, j) for j in range(1 << n)]          # a wholly undefined output
+                for (_, j) in pos:
+                    rows[i][j] = '*'
             for _ in range(npos):
                 i, j = rng.randrange(m), (0 if rng.random() < 0.35 else rng.randrange(1 << n))
-                if (i, j) not in pos:
+                if (i, j) not in pos and len(pos) < 6:
                     pos.append((i, j))
                     rows[i][j] = '*'
             tt = [''.join(r) for r in rows]
